@@ -34,6 +34,8 @@
 (*                    (square full rank is the case named in the text;     *)
 (*                    independent rows are enough, and TLC checks that it  *)
 (*                    follows)                                             *)
+(*   FitIsContraction |A off| <= |d|;  OffsetsBounded |off|^2 <= |d|^2     *)
+(*                    F^(rank-1) (F = sum of squared entries of A)         *)
 (*   KeysAreDescriptors, TrefIsMean                                        *)
 (*   application: AdjE(x) = -(off . x) is the energy/(R tref); H/RT and    *)
 (*   G/RT get AdjE(x) tref/T: Linear, TIndependent, ReproducesAtTref.      *)
@@ -51,7 +53,9 @@ CONSTANTS ND,        \* number of descriptors the references can contain
           Variant,   \* "explicit" (the code) | "auto"
           Steps,     \* integer perturbations of one offset tried by Optimal
           Temps,     \* temperatures tried by TIndependent
-          Record     \* TRUE: h carries the full record of every step (replay); FALSE: the action only
+          Record,    \* TRUE: h carries the full record of every step (replay); FALSE: the action only
+          Algo,      \* "lstsq" (the code) | "squarefast" (named variant, expected to be rejected)
+          Garbage    \* size of the offsets an undetected singular square solve returns
 
 VARIABLES refs, keys, off, tref, fitted, h
 vars == <<refs, keys, off, tref, fitted, h>>
@@ -64,9 +68,18 @@ DVec(rs) == TLCEval([i \in 1..Len(rs) |-> rs[i].d])
 RECURSIVE SumT(_)
 SumT(rs) == IF Len(rs) = 0 THEN 0 ELSE rs[1].t + SumT(Tail(rs))
 MeanT(rs) == RFrac(SumT(rs), Len(rs))
+\* Variant "squarefast": when there are as many references as descriptors the system is
+\* solved directly (LU) and least squares is used only if the solver reports singularity.
+\* LU in floating point reports it only for an exactly zero pivot; for many rank-deficient
+\* integer matrices rounding leaves a ~1e-16 pivot and the solver returns finite offsets of
+\* order 1e16 that have nothing to do with the least-squares solution.  Abstraction of that
+\* (worst) case: a singular square yields an arbitrary large vector, here Garbage everywhere.
+SquareSingular(rs, ks) == Len(rs) = Len(ks) /\ IRank(AMat(rs, ks), Len(ks)) < Len(ks)
 FitOf(rs) == LET ks == KeySeq(rs) IN
    [keys |-> ks,
-    off |-> MinNormLS(RMat(AMat(rs, ks)), Len(ks), RVec(DVec(rs))),
+    off |-> IF Algo = "squarefast" /\ SquareSingular(rs, ks)
+            THEN TLCEval([k \in 1..Len(ks) |-> R(Garbage)])
+            ELSE MinNormLS(RMat(AMat(rs, ks)), Len(ks), RVec(DVec(rs))),
     tref |-> MeanT(rs)]
 
 Residual(rs, ks, o) == VSub(RVec(DVec(rs)), MatVec(RMat(AMat(rs, ks)), o))
@@ -146,6 +159,20 @@ Optimal ==
                       TLCEval([j \in 1..Len(keys) |-> IF j = k THEN RAdd(off[j], R(dlt)) ELSE off[j]]))))
 Reproduces == Fresh /\ RowsIndependent(refs, keys) => IsZeroVec(Residual(refs, keys, off))
 \* (otherwise the residual is in general non-zero and only NormalEquations / Optimal constrain it)
+\* the fitted values A off are the orthogonal projection of d: never longer than d
+FitIsContraction ==
+   Fresh => RLe(Norm2(MatVec(RMat(AMat(refs, keys)), off)), Norm2(RVec(DVec(refs))))
+\* size of the offsets.  For an integer matrix of rank r the product of the squared non-zero
+\* singular values is the sum of the squared r x r minors, an integer >= 1, and each is at most
+\* F = sum of the squared entries; so sigma_min^2 >= 1 / F^(r-1) and the minimum-norm (and any
+\* basic) least-squares solution satisfies |off|^2 <= |d|^2 F^(r-1).
+RECURSIVE IPow(_, _)
+IPow(b, n) == IF n <= 0 THEN 1 ELSE b * IPow(b, n - 1)
+Frob2(A) == LET rowsq(v) == RSum(TLCEval([j \in 1..Len(v) |-> R(v[j] * v[j])]))[1]
+            IN RSum(TLCEval([i \in 1..Len(A) |-> R(rowsq(A[i]))]))[1]
+OffsetsBounded ==
+   Fresh => LET A == AMat(refs, keys)  r == IRank(A, Len(keys)) IN
+            RLe(Norm2(off), RMul(Norm2(RVec(DVec(refs))), R(IPow(Frob2(A), r - 1))))
 KeysAreDescriptors == Fresh => keys = KeySeq(refs)
 TrefIsMean == Fresh => tref = MeanT(refs)
 \* implementation-shaped: the minimum-norm solution (orthogonal to the null space of A)
